@@ -9,7 +9,7 @@ import vlib, refs, pairs
 
 SIZES = {  # (quick, thorough) number of pairs per stratum
     "uniform": (120, 3000), "threshold": (260, 8000), "grey": (80, 4000), "named": (60, 2500),
-    "nearbg": (80, 2500), "hair": (60, 1500), "witness": (900, 20000), "spell": (130, 4000),
+    "nearbg": (80, 2500), "hair": (60, 1500), "witness": (900, 20000), "spell": (130, 4000), "isolum": (150, 12000),
 }
 
 
@@ -29,10 +29,10 @@ def strata(pid, t, rnd):
     def spelled(c, kind):
         return pairs.spell(c, kind, rnd)
 
-    w = {"C01": dict(uniform=1, threshold=1, grey=1, named=1, nearbg=.5, hair=.5, spell=1),
-         "C02": dict(uniform=.7, threshold=1, grey=.7, named=.5, nearbg=.7, hair=1.5, spell=.6),
-         "C16": dict(uniform=.5, threshold=1.2, grey=.5, named=.3, nearbg=2.0, hair=.3, spell=.2),
-         "C04": dict(uniform=1, threshold=1, grey=.5, named=.3, nearbg=1.5, hair=.2, spell=.3),
+    w = {"C01": dict(uniform=1, threshold=1, grey=1, named=1, nearbg=.5, hair=.5, spell=1, isolum=.3),
+         "C02": dict(uniform=.7, threshold=1, grey=.7, named=.5, nearbg=.7, hair=1.5, spell=.6, isolum=4),
+         "C16": dict(uniform=.5, threshold=1.2, grey=.5, named=.3, nearbg=2.0, hair=.3, spell=.2, isolum=.5),
+         "C04": dict(uniform=1, threshold=1, grey=.5, named=.3, nearbg=1.5, hair=.2, spell=.3, isolum=.5),
          "C03": dict(witness=1)}[pid]
     for name, scale in w.items():
         n = n_of(name, t, scale)
@@ -59,6 +59,12 @@ def strata(pid, t, rnd):
             elif name == "nearbg":
                 a, b = pairs.near_background(rnd)
                 add(a, b, large)
+            elif name == "isolum":
+                a, b = pairs.isoluminant(rnd)
+                # mode 0 first: the strict strategy returns the multi-phase search's answer unfiltered
+                add(a, b, large, runs=[(0, False), (0, True), (1, False), (2, False)] if k % 3 else None)
+                if specs[-1].get("runs") is None:
+                    del specs[-1]["runs"]
             elif name == "hair":
                 tq = rnd.choice(REQS)
                 a, b = pairs.near_threshold(rnd, tq, (-0.01, 0.01))
